@@ -42,7 +42,7 @@ def values_only(steps):
 
 def run(tier, seed):
     ctx = core.Ctx(PID, tier, seed, LEVEL)
-    n, depth = (2500, 5) if tier == "quick" else (40000, 7)
+    n, depth = (2500, 5) if tier == "quick" else (core.share(40000), 7)
     legs = ["dev"] if tier == "quick" else ["dev", "release"]
     ctx.rule = ("type-directed random programs over the core forms (0-5 fixed parameters, rest parameters, internal and mutually referring "
                 "definitions, closures/makers/higher-order procedures, counter recursion, non-boolean tests, quote, apply) with ticking operands, "
